@@ -185,7 +185,15 @@ def run_tlist(spec, ctx):
         if bad:
             problems.append(f"after {label}: field holds {nm(got)}: {nm(bad)} were neither written ({nm(model)}) nor can be inferred")
             return False
-        # (whether the field also holds every inferred element is C15's question, not a question about write forms)
+        # every element that became part of the field is recorded with the inferences an append would have drawn: what
+        # those inferences add to this very field (the transitive ancestors) is there, whatever the write form was
+        missing = allowed - {id(x) for x in got}
+        # (only while nothing was overwritten: an item / slice assignment or a new collection replaces what stands at the
+        # written positions, which may be an inferred element - Python semantics decide there)
+        if missing and not any(k.rstrip("-") in ("setitem", "setslice", "assign_new", "assign_self") for k in kinds_seen):
+            problems.append(f"after {label}: field holds {nm(got)}, the elements inferred from what was written "
+                            f"({nm([o for o in others if id(o) in missing])}) are missing")
+            return False
         return True
 
     check("start(" + spec["start_form"] + ")", list(start))
